@@ -43,6 +43,13 @@ def run_family(chk, unit, build, max_tokens):
         text = "".join(chr(vals["c%d" % i]) for i in range(n))
         return native_crashes(nat, text)
 
+    def replay_zero_den(vals):
+        n = vals["len"]
+        text = "".join(chr(vals["c%d" % i]) for i in range(n))
+        out = nat.cmd("tokdump %s" % hexs(text))
+        import re as _re
+        return bool(_re.search(r"Q -?\d+ 0( |$)", out)), "real lexer on %r: %s" % (text, out[:80])
+
     def on_panic(info):
         chk.unit(unit)["panic_outcomes"] += 1
         chk.oblige(ex, unit, "no panic while reading the text and converting its literals", z3.BoolVal(False), inputs, replay)
@@ -57,13 +64,58 @@ def run_family(chk, unit, build, max_tokens):
         for tok, a, b in tokens:
             td = tok.fields[0]
             if isinstance(td, Adt) and td.variant == "Primitive":
-                for _ in ex.run(fprim, [Ref(Cell(td.fields[0]))]):
+                prim = td.fields[0]
+                if isinstance(prim, Adt) and prim.variant == "Rational":
+                    # the precondition of the eval_primitive unit: the lexer never emits a ratio with a zero denominator
+                    chk.oblige(ex, unit, "a ratio token has a non-zero denominator", prim.fields[1] != 0, inputs, replay_zero_den)
+                for _ in ex.run(fprim, [Ref(Cell(prim))]):
                     pass
         # reachability witness for this family (every path ends in a value or a reported error)
         chk.oblige(ex, unit, "reading ends in tokens or in a reported error", z3.BoolVal(True), inputs, replay)
 
     lexskel.run_tokens(ex, lx, src, peek, max_tokens, on_end)
     chk.notes.append("%s: %s" % (unit, stats))
+
+
+def spec_eval_primitive(chk):
+    """the literal-conversion stage on its own, from an ARBITRARY numeric / boolean / character literal token
+    (every i32 numerator, every non-zero u32 denominator - the lexer rejects a zero denominator, which the ratio families
+    oblige): no panic. The lexer families reach this stage only through the texts within their length bounds."""
+    unit = "Interpreter::eval_primitive on an arbitrary Integer / Rational / Boolean / Character literal"
+    ex = chk.executor(True)
+    ex.loop_bound = 8
+    nat = chk.ws.runner("dev")
+    fprim = ex.fn_by_suffix("::eval_primitive")
+    a = ex.fresh_int(ty="i32", name="a")
+    b = ex.fresh_int(ty="u32", name="b")
+    c = ex.fresh_value("char", "c")
+    t = z3.Bool("t")
+    kind = z3.Int("kind")
+    ex.ctx.add(b != 0, kind >= 0, kind <= 3)
+    inputs = {"kind": kind, "a": a, "b": b, "c": c, "t": t}
+
+    def text_for(v):
+        if v["kind"] == 0:
+            return str(v["a"])
+        if v["kind"] == 1:
+            return "%d/%d" % (v["a"], v["b"])
+        if v["kind"] == 2:
+            return "#t" if v["t"] else "#f"
+        return "#\\" + chr(v["c"])
+
+    def replay(v):
+        return native_crashes(nat, text_for(v))
+
+    def on_panic(info):
+        chk.unit(unit)["panic_outcomes"] += 1
+        chk.oblige(ex, unit, "no panic while converting the literal", z3.BoolVal(False), inputs, replay)
+
+    ex.panic_hook = on_panic
+    toks = [Adt("Primitive", "Integer", [a]), Adt("Primitive", "Rational", [a, b]), Adt("Primitive", "Boolean", [t]), Adt("Primitive", "Character", [c])]
+    for k in ex.branches([kind == i for i in range(4)]):
+        for _ in ex.run(fprim, [Ref(Cell(toks[k]))]):
+            chk.path(unit)
+            chk.oblige(ex, unit, "conversion ends in a value or a reported error", z3.BoolVal(True), inputs, replay)
 
 
 def fam_all(N):
@@ -110,6 +162,22 @@ def fam_ratio(maxn, maxd, tail):
     return build
 
 
+def fam_signed_ratio(tail):
+    """sign digits{10} '/' digits{1..2}: numerators at the i32 boundary"""
+    def build(ex):
+        n = 1 + 10 + 1 + 2 + tail
+        chars = [lexskel.char_var(ex, "c%d" % i) for i in range(n)]
+        ln = z3.Int("len")
+        b = z3.Int("nden")
+        ex.ctx.add(b >= 1, b <= 2, ln >= 12 + b, ln <= 12 + b + tail, z3.Or(chars[0] == 43, chars[0] == 45), chars[11] == 47)
+        for i in range(1, 11):
+            ex.ctx.add(z3.And(chars[i] >= 48, chars[i] <= 57))
+        for i in range(12, 14):
+            ex.ctx.add(z3.Implies(i < 12 + b, z3.And(chars[i] >= 48, chars[i] <= 57)))
+        return chars, ln
+    return build
+
+
 def fam_real(tail, body=5):
     """texts over the characters of real literals: digits, sign, '.', 'e', plus `tail` arbitrary characters at the end"""
     def build(ex):
@@ -128,14 +196,17 @@ def run(chk):
     thorough = chk.tier == "thorough"
     N = 4 if thorough else 3
     chk.bounds = {"all texts": "every text of <= %d characters over ALL Unicode scalar values (the lexer's own branches split the classes)" % N,
-                  "digit runs": "[sign] 1..11 digits + <= 1 further character; 1..3 digits '/' 0..11 digits + <= 1 further character; texts of <= 5 characters over digits/sign/./e + <= 1 further character",
-                  "stages": "Lexer::next until the end of the text, then Interpreter::eval_primitive on every literal token"}
+                  "digit runs": "[sign] 1..11 digits + <= 1 further character; 1..3 digits '/' 0..11 digits + <= 1 further character; sign 10 digits '/' 1..2 digits + <= 1 further character; texts of <= 5 characters over digits/sign/./e + <= 1 further character",
+                  "stages": "Lexer::next until the end of the text, then Interpreter::eval_primitive on every literal token",
+                  "literal conversion unit": "Interpreter::eval_primitive from every Integer(i32), Rational(i32, non-zero u32), Boolean and Character token; loops unrolled 8 times"}
     chk.assumptions += [
         "slice of C07: the lexer and the literal-conversion stage only; parser, expander and evaluator panics (pair.rs todo!(), ParameterFormals::as_name unreachable!(), i32 overflow in arithmetic, file_char_stream) are outside this check",
         "String is modelled as the list of its characters; str::parse::<i32/u32> = optional sign + digits + range; str::parse::<f64> = acceptance by Rust's decimal float grammar",
         "stack exhaustion, non-termination and memory exhaustion are outside (as in the property)",
     ]
-    chk.step("all texts", run_family, chk, "Lexer::next over every text of <= %d characters, then eval_primitive" % N, fam_all(N), N + 1)
+    chk.step("eval_primitive unit", spec_eval_primitive, chk)
+    chk.step("ratio literals at the i32 boundary", run_family, chk, "Lexer on sign digits{10} '/' digits{1..2} + one more character", fam_signed_ratio(1), 4)
     chk.step("integer literals", run_family, chk, "Lexer on [sign] digits{1..11} + one more character", fam_digits(11, 1), 4)
     chk.step("ratio literals", run_family, chk, "Lexer on digits{1..3} '/' digits{0..11} + one more character", fam_ratio(3, 11, 1), 4)
+    chk.step("all texts", run_family, chk, "Lexer::next over every text of <= %d characters, then eval_primitive" % N, fam_all(N), N + 1)
     chk.step("real literals", run_family, chk, "Lexer on <= %d characters of digits/sign/./e + one more character" % (5 if thorough else 4), fam_real(1, 5 if thorough else 4), 5)
